@@ -153,3 +153,13 @@ Proof. induction a as [|c a IH]; intros b; cbn; [destruct b; reflexivity | rewri
 
 Lemma pad_s_prefix : forall s i, substring 0 (String.length s) (pad_s s i) = s.
 Proof. intros s i. unfold pad_s. apply string_app_prefix. Qed.
+
+(* ------------------------------------------------------------------ MID$ *)
+(* MID$(s, i, j) is [substring (i-1) j s] in Eval.v: j characters, or as many as remain after the first i-1 *)
+Lemma substring_length : forall s n m, String.length (substring n m s) = Nat.min m (String.length s - n).
+Proof.
+  induction s as [|c s IH]; intros n m; destruct n as [|n], m as [|m]; cbn [substring String.length]; try rewrite IH; cbn; lia.
+Qed.
+
+Lemma substring_all : forall s, substring 0 (String.length s) s = s.
+Proof. induction s as [|c s IH]; cbn; [reflexivity | rewrite IH; reflexivity]. Qed.
